@@ -172,7 +172,7 @@ def opcode_prefix_program(prefixes, in_try, raise_kind):
     src = ("class Base { init(n) { self.n = n; self.k = 0; } m() { return 'Bm'; } m1(x) { return x; } m2(x, y) { return y; } static sm() { return 1; } "
            "deep(d) { if d == 0 { raise Error('deep'); } return self.deep(d - 1); } }\n"
            "class Sub : Base {\n  init(n) { super.init(n); self.extra = 1; }\n  m() { return 'Sm'; }\n  run(p0) {\n    let l0 = 1;\n    %s\n    let r = 'none';\n"
-           "    try { %s r = r + '+done'; } catch e: Error { r = r + '+caught:' + e.message.len().str(); }\n    let post = [l0, p0, r, self.n, self.k];\n    return post;\n  }\n}\n"
+           "    try { %s r = r + '+done'; } catch e: Error { r = r + '+caught:' + e.cls().name() + (e.cls().name() == 'Error' ? ':' + e.message : ''); }\n    let post = [l0, p0, r, self.n, self.k];\n    return post;\n  }\n}\n"
            "print(Sub(1).run(2));\nprint(Sub(3).run(4));\n") % ("" if in_try else pre, body_try)
     return src
 
